@@ -513,10 +513,10 @@ type slowRec struct {
 }
 
 type checker struct {
-	r     *core.Report
-	t     *tally
-	pmu   sync.Mutex
-	pseen map[string]bool // panic-recovered signatures already confirmed
+	r      *core.Report
+	t      *tally
+	pmu    sync.Mutex
+	pseen  map[string]bool // panic-recovered signatures already confirmed
 	probes map[string]*probeOutcome
 }
 
